@@ -4,11 +4,11 @@
 //
 // ByteBuffer keeps the API and semantics of the original (method bodies are
 // the original's); Pool.Get/Put belong to the simulator: outside a simulation
-// (no Control installed) the pool is a plain thread-safe LIFO free list with the
+// (no Config installed) the pool is a plain thread-safe LIFO free list with the
 // original's observable behaviour (Put resets the length, buffers are reused).
-// With a Control installed every Get, Put and ByteBuffer method is reported to
-// it first, which is how the C13 scheduler gets its scheduling points and how
-// the pool policies (reuse order, poisoning, prefill) are applied.
+// With a Config installed every Get, Put and ByteBuffer method first calls the
+// Config's Yield, which is how the C13 scheduler gets its scheduling points,
+// and the pool policies (reuse order, poisoning, prefill) are applied.
 package bytebufferpool
 
 import "io"
@@ -19,8 +19,13 @@ type ByteBuffer struct {
 	B []byte
 
 	// simulator bookkeeping (not part of the original API; unexported)
-	id     int
-	inPool bool
+	id         int
+	inPool     bool
+	prefill    bool
+	poisoned   bool
+	sum        uint64
+	poisonCap  int
+	releasedBy int
 }
 
 func (b *ByteBuffer) Len() int { yield("Len", b); return len(b.B) }
